@@ -109,3 +109,46 @@ Example C14_stale_pong_run_impossible_with_discard :
           (2000, SWake); (2000, STake)] 2000
   = None.
 Proof. vm_compute. reflexivity. Qed.
+
+(** * The whole connection: both automata composed through a link (Eio/HeartbeatLink.v). *)
+From SioV Require Import Eio.HeartbeatLink Eio.HeartbeatLinkProofs.
+
+(** Never kill a live one.  If every ping is delivered within Ld and answered (pong delivered)
+    within Lu of that, with Ld + Lu + 2D < T, then in EVERY run of the composed system - any number
+    of heartbeat rounds (any length of idleness), any slack schedule, any variation of the delays
+    below their bounds, application traffic at any phase (SApp/CApp steps anywhere) - neither the
+    server loop nor the client watchdog ever takes its timeout branch, and neither side is closed. *)
+Theorem C14_live_never_killed : forall c l, cfg_ok c ->
+  0 <= lDown l /\ 0 <= lUp l /\ lDown l + lUp l + 2 * cD c < cT c ->
+  forall start evs t_end st,
+  xvalid c l start evs t_end = Some st ->
+  Forall (fun te => is_timeout (snd te) = false) evs
+  /\ s_reason (xs st) = None /\ c_reason (xc st) = None.
+Proof. exact live_never_killed. Qed.
+
+(** "Every ping answered within < T - D" (a bound on the round trip alone) is NOT enough for the
+    client side: with I = T = 1000, D = 0, the first ping delivered at once and its pong after 800,
+    the second ping (sent at 2800) still on its way at 3000, the client's watchdog fires at
+    1000 + I + T = 3000 although every round trip the server saw took 800 < T - D.  (Replayed live
+    by the `jitter` scenario: known finding client-watchdog-latency-jitter.) *)
+Theorem C14_live_rtt_bound_alone_refuted :
+  exists c l start evs t_end st,
+    cfg_ok c /\ xvalid c l start evs t_end = Some st /\
+    rtt_within (cT c - cD c - 1) evs t_end = true /\
+    c_reason (xc st) = Some PingTimeout.
+Proof.
+  exists (mkCfg 1000 1000 0 true), (mkLink 800 800), 0,
+    [(1000, XS SWake); (1000, XDeliverPing); (1000, XC CRearm); (1800, XDeliverPong);
+     (1800, XS STake); (2800, XS SWake); (3000, XC CTimeout)], 3000.
+  eexists. split; [unfold cfg_ok; simpl; lia|]. split; [vm_compute; reflexivity|].
+  split; vm_compute; reflexivity.
+Qed.
+
+(** The hypotheses of C14_live_never_killed are satisfiable: four rounds with varying delays. *)
+Example C14_example_live :
+  match xvalid (mkCfg 1000 1000 20 true) (mkLink 400 400) 0
+         [(1010, XS SWake); (1300, XDeliverPing); (1305, XC CRearm); (1500, XS SApp); (1650, XDeliverPong);
+          (1660, XS STake); (2670, XS SWake); (2670, XDeliverPing); (2675, XC CRearm); (2680, XDeliverPong);
+          (2690, XS STake); (3000, XC CApp); (3700, XS SWake); (4100, XDeliverPing); (4110, XC CRearm); (4500, XDeliverPong)] 4510
+  with Some st => true | None => false end = true.
+Proof. vm_compute. reflexivity. Qed.
